@@ -409,5 +409,19 @@ pub proof fn lemma_initiating_side_never_breaks_a_nonce_tie(me: Seq<char>, peer:
         assert(!all_of(s, is_srv())) by { assert(is_cli()(s[0])); }
     }
 }
+
+/// ... in general: two dialled connections that cannot be told apart by nonce are elected together or not at all, whatever else
+/// takes part in the election (the tie-break by actor id only ever applies when nothing but accepted connections is left)
+pub proof fn lemma_dialled_ties_are_never_broken(me: Seq<char>, peer: Seq<char>, s: Seq<Cand>, c1: Cand, c2: Cand)
+    requires s.contains(c1), s.contains(c2), !c1.is_server, !c2.is_server, c1.connection_id == c2.connection_id,
+    ensures elect_spec(me, peer, s).contains(c1) == elect_spec(me, peer, s).contains(c2),
+{
+    lemma_elect_members(me, peer, s);
+    let d = by_direction(me, peer, s); let n = by_nonce(d);
+    lemma_dir(me, peer, s); lemma_nonce(d); lemma_tie(n);
+    // a dialled candidate among the survivors of the first two stages rules the tie-break out
+    if n.contains(c1) { let k = choose|k: int| 0 <= k < n.len() && n[k] == c1; assert(!is_srv()(n[k])); }
+    if n.contains(c2) { let k = choose|k: int| 0 <= k < n.len() && n[k] == c2; assert(!is_srv()(n[k])); }
+}
 } // mod
 } // verus!
